@@ -49,25 +49,78 @@ def cacheableTypes : List String :=
   ["partitions.Partitions", "partitions.partition", "partitions.location", "minersc.GlobalNode",
    "minersc.MinerNode", "storagesc.StorageAllocation", "storagesc.Config"]
 
-def step (w : World) (ws : List String) : World × String :=
+/-- driver state: the world of part 1, and the world driven through `Chain.UpdateState` (one chain; the number
+of the block being executed) -/
+structure DState where
+  w : World := {}
+  ew : Option (World × Nat) := none
+
+def stepW (w : World) (op : Op) : World × Ans := ZChain.StateCache.step {} w op
+
+/-- a contract call = one transaction: `tx`, the contract's operation, then `commit` (applied) or `discard`
+(the contract failed: chargeable error, the transaction cache is dropped) -/
+def ecall (w : World) (op : Op) (fails : Ans → Bool) : World × Ans × Bool :=
+  let w1 := (stepW w .tx).1
+  let (w2, a) := stepW w1 op
+  if fails a then ((stepW w2 .discard).1, a, false) else ((stepW w2 .commit).1, a, true)
+
+def estep (ew : World × Nat) (ws : List String) : Option ((World × Nat) × String) :=
+  let (w, n) := ew
+  match ws with
+  | ["eblock"] =>
+    let w1 := (stepW w .bcommit).1
+    some (((stepW w1 (.begin_ (n + 1) n)).1, n + 1), "ok")
+  | ["ewrite", k, v] => match num? k, num? v with
+    | some k, some v => let (w', _, _) := ecall w (.ins k v) (fun _ => false); some ((w', n), "ok")
+    | _, _ => none
+  | ["ewritefail", k, v] => match num? k, num? v with
+    | some k, some v => let (w', _, _) := ecall w (.ins k v) (fun _ => true); some ((w', n), "failed")
+    | _, _ => none
+  | ["edel", k] => match num? k with
+    | some k =>
+      let (w', _, ok) := ecall w (.del k) (fun a => a == .absent)
+      some ((w', n), if ok then "ok" else "failed")
+    | none => none
+  | ["eread", k] => match num? k with
+    | some k =>
+      let w1 := (stepW w .tx).1
+      let r := refRead w1 (.get k)
+      let (w', a, _) := ecall w (.get k) (fun _ => false)
+      some ((w', n), showAns a r)
+    | none => none
+  | _ => none
+
+def step (s : DState) (ws : List String) : DState × String :=
   match ws with
   | ["reset"] => ({}, "ok")
+  | ["ereset"] => ({ s with ew := some ((stepW {} (.begin_ 1 0)).1, 1) }, "ok")
   | ["typecheck", t, seed] =>
     -- part 2 of the harness (Clone/CopyFrom of the real cacheable types): no counterpart in the model,
     -- where values are immutable — the aliasing part of C07 is validated on the real code, not proved
-    if cacheableTypes.contains t ∧ (num? seed).isSome then (w, "ok") else (w, "bad-op")
+    if cacheableTypes.contains t ∧ (num? seed).isSome then (s, "ok") else (s, "bad-op")
   | _ =>
-    match parse ws with
-    | none => (w, "bad-op")
-    | some op =>
-      let (w', a) := ZChain.StateCache.step {} w op
-      match op, a with
-      | .probe _, .val v => (w', s!"hit {v}")
-      | .probe _, .absent => (w', "miss")
-      | .del _, .absent => (w', "absent")
-      | _, _ => (w', showAns a (match a with | .val _ | .absent => refRead w op | _ => none))
+    match ws with
+    | [] => (s, "bad-op")
+    | cmd :: _ =>
+      if cmd == "eblock" || cmd == "ewrite" || cmd == "ewritefail" || cmd == "edel" || cmd == "eread" then
+        match s.ew with
+        | none => (s, "bad")
+        | some ew =>
+          match estep ew ws with
+          | some (ew', out) => ({ s with ew := some ew' }, out)
+          | none => (s, "bad-op")
+      else
+        match parse ws with
+        | none => (s, "bad-op")
+        | some op =>
+          let (w', a) := stepW s.w op
+          match op, a with
+          | .probe _, .val v => ({ s with w := w' }, s!"hit {v}")
+          | .probe _, .absent => ({ s with w := w' }, "miss")
+          | .del _, .absent => ({ s with w := w' }, "absent")
+          | _, _ => ({ s with w := w' }, showAns a (match a with | .val _ | .absent => refRead s.w op | _ => none))
 
-def run : IO Unit := ZChain.Drv.runLoop step ({} : World)
+def run : IO Unit := ZChain.Drv.runLoop step ({} : DState)
 
 end ZChain.Drv.C07
 
